@@ -2,9 +2,15 @@ import SkoolVerif.Proofs.EdgesSeg
 import SkoolVerif.Proofs.EdgesMerge
 import SkoolVerif.Proofs.EdgesLevel
 import SkoolVerif.Proofs.EdgesSplit
+import SkoolVerif.Proofs.EdgesShift
+import SkoolVerif.Proofs.EdgesPolarity
+import SkoolVerif.Proofs.EdgesTape
 import SkoolVerif.Proofs.TapeFilesLemmas
 import SkoolVerif.Proofs.PzxLemmas
 import SkoolVerif.Proofs.PulsLemmas
+import SkoolVerif.Proofs.PzxDataLemmas
+import SkoolVerif.Proofs.TzxLemmas
+import SkoolVerif.Proofs.TapPzx
 /-!
 C11 — tape files round-trip and their pulse trains encode exactly the block bytes.
 
@@ -14,7 +20,7 @@ Models: `SkoolVerif/Model/Edges.lean` (hand model of `tape.get_edges`), tied to
 `SkoolVerif/Spec/EdgeDecode.lean`.
 -/
 namespace C11
-open Edges EdgeSpec TapeFiles PzxSpec
+open Edges EdgeSpec TapeFiles PzxSpec TzxFile DirectRecSpec
 
 /-! ## The edge generator: statements for **all** inputs (both data paths) -/
 
@@ -118,22 +124,23 @@ theorem pulse_phase_exact (pol : Int) (b : Block) (s : St) (h : b.timings.pulses
   simp only [ne_eq, h, not_false_eq_true, ↓reduceIte, emit_eq]
   exact ⟨rfl, rfl⟩
 
-/-- The full-strength statement for the data part on the table path: the new edges are
+/-- The full-strength statement (kept visible; it is **false** for the code as it is, see
+`C11_full_false`) for the data part on the table path: the new edges are
 the running sums of the pulse sequences of exactly the block's bits (8 per byte,
 `used_bits` of the last one), followed by the tail pulse. -/
-def DataPhaseExact : Prop :=
+def C11_full : Prop :=
   ∀ (pol : Int) (l : Bool) (b : Block) (s : St), b.data ≠ [] → hasZero b.timings = false →
     (dataPhase pol l b s).edges =
       checkPolarity b.timings.polarity pol s.edges s.t ++
         cumsum s.t (bitPulses b.timings.zero b.timings.one (dataBits b.timings.usedBits b.data) ++
           tailL b.timings.tail)
 
-/-- **Finding.**  `DataPhaseExact` is false for the code as it is: with bit sequences
+/-- **Finding.**  `C11_full` is false for the code as it is: with bit sequences
 of different lengths (PZX `DATA`, `p0 ≠ p1`) and fewer than 8 used bits, the table path
 truncates the last byte at `(len(bt) * used_bits) // 8` *pulses*, which is not a bit
 boundary.  Witness: one bit `1`, `s0 = [100]`, `s1 = [200, 300]`: the block specifies the
 pulses 200, 300; `get_edges` produces only 200. -/
-theorem data_phase_exact_full_false : ¬ DataPhaseExact := by
+theorem C11_full_false : ¬ C11_full := by
   intro h
   have := h 0 true ⟨{ zero := [100], one := [200, 300], usedBits := 1, polarity := some 1 }, [128], none⟩
     ⟨[0, 0], 0, -1, none, []⟩ (by decide) (by decide)
@@ -150,7 +157,7 @@ theorem finding_witness_edges :
 /-- The data part on the table path is exact whenever both bit sequences have the same
 number of pulses (TAP, every TZX block, PZX blocks with `p0 = p1`) or all 8 bits of the
 last byte are used.  Missing for the full statement: PZX `DATA` blocks with `p0 ≠ p1`
-and `used_bits < 8` (see `data_phase_exact_full_false`). -/
+and `used_bits < 8` (see `C11_full_false`). -/
 theorem data_phase_exact_partial (pol : Int) (l : Bool) (b : Block) (s : St)
     (hd : b.data ≠ []) (hz : hasZero b.timings = false)
     (hu : b.timings.zero.length = b.timings.one.length ∨ 8 ≤ b.timings.usedBits) :
@@ -209,6 +216,19 @@ theorem merge_level_equiv (ds : List Nat) (e : List Int) (t : Int) (hlast : e.ge
     simp only [level_eq]
     omega
 
+/-- Whole-tape exactness for TAP/TZX-style tapes (no declared block levels, no tail pulses,
+no zero-length bit pulses): the edge list is, after the initial edge(s) at `first_edge`,
+exactly the play-out of the tape's events — every tone/sync pulse, every pulse of every bit
+of every byte (`used_bits` of the last), in order, each ending with an edge; pauses only
+move the clock; the pause of the last block is not played.
+Excluded as in `data_phase_exact_partial`: `p0 ≠ p1` with `used_bits < 8`. -/
+theorem tape_edges_exact_partial (blocks : List Block) (fe pol : Int)
+    (hb : ∀ b ∈ blocks, PlainBlock b) (ht : ∀ b ∈ blocks, b.timings.tail = 0) :
+    (getEdges blocks fe pol).1 =
+      (if pol % 2 ≠ 0 then [fe, fe] else [fe]) ++ playEvents fe (tapeEvents blocks) := by
+  rw [finish_no_tail blocks fe pol ht]
+  exact (runBlocks_plain pol blocks (initSt fe pol) hb).1
+
 /-! ## Decoding -/
 
 /-- Spec level: a pulse train built from `bitPulses` is decoded, by measuring the
@@ -221,7 +241,7 @@ theorem decode_cumsum (zero one : List Nat) (hpf : PrefixFree zero one) (bits : 
   exact decodeBits_bitPulses zero one hpf bits
 
 /-- The edges that `get_edges` appends for a data block decode back to exactly the
-block's bits.  Excluded (see `data_phase_exact_full_false`): `p0 ≠ p1` with
+block's bits.  Excluded (see `C11_full_false`): `p0 ≠ p1` with
 `used_bits < 8`; zero-length pulses (merge path) are not decodable by distance. -/
 theorem data_phase_decodes_partial (pol : Int) (l : Bool) (b : Block) (s : St)
     (hd : b.data ≠ []) (hz : hasZero b.timings = false)
@@ -316,6 +336,34 @@ theorem tap_tzx_datablock_ranges_decode_partial (blocks : List Block) (fe pol : 
     List.take_take, Nat.min_self] at this
   exact this
 
+/-! ## First-edge offset and polarity -/
+
+/-- `first_edge` only translates the signal: every edge moves by the same amount and the
+data blocks (ranges, data, flags) are unchanged — for every tape, both data paths. -/
+theorem first_edge_shift (blocks : List Block) (fe pol k : Int) :
+    getEdges blocks (fe + k) pol =
+      ((getEdges blocks fe pol).1.map (· + k), (getEdges blocks fe pol).2) := by
+  unfold getEdges
+  rw [initSt_sh, runBlocks_sh, finish_sh]
+  rfl
+
+/-- Only the parity of `polarity` matters. -/
+theorem polarity_parity (blocks : List Block) (fe pol : Int) :
+    getEdges blocks fe pol = getEdges blocks fe (pol % 2) := by
+  unfold getEdges
+  rw [runBlocks_mod, initSt_mod]
+
+/-- An odd polarity only inverts the signal: the edge list gets one more edge at
+`first_edge` in front, every other edge is the same, and every data-block index moves
+up by one (block polarities as the parsers produce them: absent, 0 or 1). -/
+theorem polarity_inverts (blocks : List Block) (fe : Int) (hb : ∀ b ∈ blocks, PolOk b) :
+    getEdges blocks fe 1 = (fe :: (getEdges blocks fe 0).1, (getEdges blocks fe 0).2.map incDb) := by
+  have h0 : Inverted fe (initSt fe 0) (initSt fe 1) := by
+    refine ⟨?_, rfl, rfl, rfl, rfl, ?_⟩ <;> simp [initSt]
+  have hr := runBlocks_inv fe blocks hb h0
+  unfold getEdges
+  exact finish_inv fe hr (tail_not_first fe 0 blocks)
+
 /-! ## The same logical tape in different block structures -/
 
 /-- A block with pilot/sync pulses *and* data (a TAP block, TZX standard 0x10 or turbo
@@ -327,6 +375,24 @@ theorem split_block_same_edges (pre post : List Block) (b : Block) (fe pol : Int
     getEdges (pre ++ [pulsesOnly b, dataOnly b] ++ post) fe pol = getEdges (pre ++ [b] ++ post) fe pol := by
   unfold getEdges
   rw [runBlocks_split pol pre post b _ hd]
+
+/-- TZX: a turbo-speed block (0x11: pilot tone, two sync pulses, data) yields exactly the
+same edges and data-block ranges as the three-block form pure tone (0x12) + pulse sequence
+(0x13) + pure data (0x14), anywhere in any tape, for every first edge and polarity. -/
+theorem turbo_eq_tone_pulses_puredata (pre post : List Block) (n p s1 s2 : Nat) (tm : Timings)
+    (data : List Nat) (fe pol : Int) (hd : data ≠ [])
+    (hp : tm.pulses = [(n, p), (1, s1), (1, s2)]) (hpol : tm.polarity = none) :
+    getEdges (pre ++ [pulseBlock [(n, p)], pulseBlock [(1, s1), (1, s2)], dataOnly ⟨tm, data, none⟩] ++ post) fe pol =
+      getEdges (pre ++ [⟨tm, data, none⟩] ++ post) fe pol := by
+  rw [← split_block_same_edges pre post ⟨tm, data, none⟩ fe pol hd]
+  have h1 : pulsesOnly ⟨tm, data, none⟩ = pulseBlock ([(n, p)] ++ [(1, s1), (1, s2)]) := by
+    simp [pulsesOnly, pulseBlock, hp, hpol]
+  unfold getEdges
+  rw [h1]
+  have h2 := runBlocks_pulse_split pol pre (dataOnly ⟨tm, data, none⟩ :: post) [(n, p)] [(1, s1), (1, s2)]
+    (initSt fe pol) (by simp)
+  simp only [List.append_assoc, List.cons_append, List.nil_append] at h2 ⊢
+  rw [h2]
 
 /-! ## TAP and PZX files -/
 
@@ -404,6 +470,119 @@ theorem puls_decode_encode (ps : List (Nat × Nat)) (hv : ∀ cd ∈ ps, ValidPu
     have := encodePuls_length_ge ps; omega
   simpa using pulsLoop_encode ps hv R _ [] hl
 
+/-- skoolkit's `DATA` decoder inverts the PZX document's layout for every block the format
+can represent: any initial level, any bit count below 2³¹ (hence any used-bits count 1…8),
+any tail, any two pulse sequences of up to 255 16-bit entries (also of different lengths,
+also empty), the bytes `⌈bits/8⌉` — whatever follows the block.  The decoded block carries
+exactly these values (`standard` only after a ROM pilot and with the ROM bit timings). -/
+theorem pzx_data_decode_encode (level nbits tail : Nat) (s0 s1 data R : List Nat) (prev : Bool)
+    (hv : ValidData level nbits tail s0 s1 data) :
+    dataBlock (encodeData level nbits tail s0 s1 data ++ R) prev =
+      .ok (specDataBlock level nbits tail s0 s1 data prev) :=
+  dataBlock_encode level nbits tail s0 s1 data R prev hv
+
+/-- One block written by `write_tap` and by `write_pzx`, each parsed back by its parser, gives
+`get_edges` different block lists (the PZX form has a `PULS` and a `DATA` block with declared
+levels and a 945 T-state tail pulse) but the **same edges and the same data-block range**,
+for every first edge and polarity: the declared levels agree with the running level (no
+correction edge) and the tail pulse, being the last edge of the tape, is dropped.
+(For tapes of several blocks the two forms differ by the tail pulses between the blocks.) -/
+theorem tap_pzx_single_block_same_edges (d : List Nat) (hv : ValidPzx [d]) (hlen : d.length < 65536)
+    (fe pol : Int) :
+    ∃ tap pzx pblocks,
+      writeTap [d] = .ok tap ∧ writePzx [d] = .ok pzx ∧ parsePzx pzx = .ok pblocks ∧
+      getEdges (pzxEdgeBlocks pblocks) fe pol = getEdges (tapEdgeBlocks (parseTap tap).blocks) fe pol := by
+  have hd := hv d (by simp)
+  have hvt : ValidTap [d] := by
+    intro x hx
+    simp at hx; subst hx
+    exact ⟨hlen, hd.2.2⟩
+  obtain ⟨tap, hw, hp⟩ := tap_roundtrip [d] hvt
+  obtain ⟨pzx, hwp, hpp⟩ := pzx_roundtrip [d] hv
+  refine ⟨tap, pzx, _, hw, hwp, hpp, ?_⟩
+  rw [hp]
+  obtain ⟨flag, r, rfl⟩ : ∃ flag r, d = flag :: r := by
+    cases d with
+    | nil => exact absurd rfl hd.1
+    | cons a r => exact ⟨a, r, rfl⟩
+  have h1 : pzxEdgeBlocks ((1, headerBlock) :: expected 0 2 [flag :: r]) = [pzxP flag, pzxD (flag :: r)] := by
+    by_cases hf : flag = 0 <;>
+      simp [pzxEdgeBlocks, expected, headerBlock, romPulsBlock, romDataBlock, pzxP, pzxD, Edges.romPulses, hf]
+  have h2 : tapEdgeBlocks (number 1 [flag :: r]) = [tapB flag (flag :: r)] := by
+    by_cases hf : flag = 0 <;>
+      simp [tapEdgeBlocks, number, tapTimings, romTimings, tapB, Edges.romPulses, hf]
+  rw [h1, h2]
+  have hpol1 : ∀ b ∈ [pzxP flag, pzxD (flag :: r)], PolOk b := by
+    intro b hb
+    simp at hb
+    rcases hb with rfl | rfl
+    · exact Or.inr (Or.inl rfl)
+    · exact Or.inr (Or.inr rfl)
+  have hpol2 : ∀ b ∈ [tapB flag (flag :: r)], PolOk b := by
+    intro b hb
+    simp at hb; subst hb
+    exact Or.inl rfl
+  have h0 := tap_pzx_single_block fe flag (flag :: r) (by simp)
+  rw [polarity_parity _ fe pol, polarity_parity [tapB flag (flag :: r)] fe pol]
+  have hm : pol % 2 = 0 ∨ pol % 2 = 1 := by omega
+  rcases hm with hm | hm <;> rw [hm]
+  · exact h0
+  · rw [polarity_inverts _ fe hpol1, polarity_inverts _ fe hpol2, h0]
+
+/-! ## TZX -/
+
+/-- The same blocks as a TZX file of standard-speed blocks (0x10, pause 1000 ms) and as a TAP
+file give `get_edges` the very same block list (bytes, ROM timings, pause; empty blocks
+dropped by both paths) — hence the same edges and data-block ranges, for every first edge
+and polarity. -/
+theorem tzx_standard_same_as_tap (bs : List (List Nat)) (hv : ValidTap bs) (fe pol : Int) :
+    ∃ tzxBlocks tap,
+      parseTzx (tzxSignature ++ [1, 20] ++ tzxTail bs) = .ok tzxBlocks ∧ writeTap bs = .ok tap ∧
+      edgeBlocks tzxBlocks = tapEdgeBlocks (parseTap tap).blocks ∧
+      getEdges (edgeBlocks tzxBlocks) fe pol = getEdges (tapEdgeBlocks (parseTap tap).blocks) fe pol := by
+  obtain ⟨tap, hw, hp⟩ := tap_roundtrip bs hv
+  have hlen : (tzxSignature ++ [1, 20] ++ tzxTail bs).length = 10 + (tzxTail bs).length := by
+    simp [tzxSignature]; omega
+  have hparse : parseTzx (tzxSignature ++ [1, 20] ++ tzxTail bs) = .ok (numberStd 1 bs) := by
+    unfold parseTzx
+    have h1 : (tzxSignature ++ [1, 20] ++ tzxTail bs).take 8 = tzxSignature := rfl
+    have h3 : (tzxSignature ++ [1, 20] ++ tzxTail bs).drop 10 = tzxTail bs := rfl
+    have h2 : ¬ (tzxSignature ++ [1, 20] ++ tzxTail bs).length < 10 := by omega
+    simp only [h1, ne_eq, not_true_eq_false, ↓reduceIte, h2, h3]
+    have := tzxLoop_std bs (fun d hd => (hv d hd).1) ((tzxSignature ++ [1, 20] ++ tzxTail bs).length + 1) 1 []
+      (by have := tzxTail_length bs; omega) (by omega)
+    simpa using this
+  have heq : edgeBlocks (numberStd 1 bs) = tapEdgeBlocks (parseTap tap).blocks := by
+    rw [hp]; exact edgeBlocks_numberStd 1 bs
+  exact ⟨numberStd 1 bs, tap, hparse, hw, heq, by rw [heq]⟩
+
+/-- TZX direct recording (0x15): the pulses skoolkit derives from the sample bits are single
+pulses whose durations add up to `tps` T-states per sample, and sampling them every `tps`
+T-states from a low level gives back exactly the recorded bits (a leading zero-length pulse
+raises the level first when the first sample is high). -/
+theorem direct_recording_faithful (tps : Nat) (htps : 0 < tps) (bit : Bool) (bits : List Bool) :
+    (∀ cd ∈ drPulses tps bit (bit :: bits), cd.1 = 1) ∧
+    total ((drPulses tps bit (bit :: bits)).map (·.2)) = tps * (bits.length + 1) ∧
+    samplePulses tps false ((drPulses tps bit (bit :: bits)).map (·.2)) = bit :: bits := by
+  refine ⟨?_, ?_, ?_⟩
+  · intro cd hcd
+    unfold drPulses at hcd
+    rw [List.mem_append] at hcd
+    rcases hcd with h | h
+    · cases bit <;> simp at h
+      subst h; rfl
+    · exact drRuns_counts tps bit 0 _ cd h
+  · unfold drPulses
+    have := drRuns_total tps bit 0 (bit :: bits)
+    cases bit <;> simp [total] at this ⊢ <;> rw [this] <;> simp [Nat.add_comm]
+  · unfold drPulses
+    have := drRuns_sample tps htps bit 0 (bit :: bits)
+    cases bit
+    · simpa using this
+    · simp only [↓reduceIte, List.cons_append, List.nil_append, List.map_cons, samplePulses, Nat.zero_div,
+        List.replicate_zero, Bool.not_false]
+      simpa using this
+
 /-! ## Non-vacuity: concrete values meeting the hypotheses, and concrete outputs -/
 
 /-- A turbo-style block: 2 pilot pulses, 2 sync pulses, one byte, 3 used bits. -/
@@ -418,6 +597,17 @@ example : dataBits 3 [0xA0] = [true, false, true] := by decide
 example : PrefixFree [5, 5] [9, 9] := by simp [PrefixFree]
 example : ¬ PrefixFree [5] [5, 5] := by simp [PrefixFree]
 example : ByteBlock exBlock := Or.inl (by decide)
+example : PlainBlock exBlock := ⟨rfl, Or.inl (by decide), Or.inl rfl⟩
+example : PolOk exBlock := Or.inl rfl
+example : ∀ b ∈ [exBlock, exBlock], ByteBlock b ∧ PlainBlock b ∧ b.timings.tail = 0 := by
+  intro b hb
+  simp at hb; subst hb
+  exact ⟨Or.inl (by decide), ⟨rfl, Or.inl (by decide), Or.inl rfl⟩, rfl⟩
+-- `tape_edges_exact_partial` on a two-block tape: the 100 T-state pause between the blocks is a gap
+example : (getEdges [exBlock, exBlock] 0 0).1 = [0] ++ playEvents 0 (tapeEvents [exBlock, exBlock]) := by decide
+example : (tapeEvents [exBlock, exBlock]).length = 21 := by decide
+-- `merge_level_equiv`: the hypothesis "no pause since the last edge"
+example : ([0, 5] : List Int).getLast? = some 5 := rfl
 example : decodeBits [5, 5] [9, 9] (diffs [27, 36, 45, 50, 55, 64, 73]) = some [true, false, true] := by decide
 -- the merge path: `s0 = [4, 0]`, `s1 = [0, 4]` (sample data): bits 1,1 merge into one 8 T-state pulse
 example : (getEdges [⟨{ zero := [4, 0], one := [0, 4], usedBits := 2 }, [0xC0], none⟩] 0 0) =
@@ -440,5 +630,16 @@ example : encodePuls [(8063, 2168), (1, 667), (1, 0x12345), (3, 0x8000)] =
     [0x7f, 0x9f, 0x78, 0x08, 0x9b, 0x02, 0x01, 0x80, 0x01, 0x80, 0x45, 0x23, 0x03, 0x80, 0x00, 0x80, 0x00, 0x80] := by
   decide
 example : ValidPulse (1, 0x12345) := by simp [ValidPulse]
+example : ValidData 1 11 945 [855] [1710, 5] [0xA5, 0xE0] := by simp [ValidData]
+example : (specDataBlock 1 11 945 [855] [1710, 5] [0xA5, 0xE0] true).timings =
+    some { zero := [855], one := [1710, 5], usedBits := 3, tail := 945, polarity := some 1 } := by decide
+-- TZX: a standard block, a direct recording (samples 10101010 110, 79 T-states each), an unknown ID
+example : parseTzx (tzxSignature ++ [1, 20] ++ [0x10, 232, 3, 2, 0, 255, 1]) =
+    .ok [(1, ⟨0x10, some [255, 1], some (romTimings 255), false, true, none⟩)] := rfl
+example : (drPulses 79 true (drBits 3 2 1 [0xAA, 0xC0])).map (·.2) = [0, 79, 79, 79, 79, 79, 79, 79, 79, 158, 79] := by
+  decide
+example : samplePulses 79 false [0, 79, 79, 158] = [true, false, true, true] := by decide
+example : parseTzx (tzxSignature ++ [1, 20, 0x99]) = .error (.unknownId 0x99) := rfl
+example : parseTzx [1, 2, 3] = .error .notTzx := rfl
 
 end C11
